@@ -187,6 +187,11 @@ func (ex *Exec) lookupIdent(st *State, name string, ctx *specCtx) SV {
 		if sv, ok := st.ghosts[name]; ok {
 			return sv
 		}
+		if srt, ok := obsSorts[name]; ok {
+			sv := Scalar(ex.fresh("unobserved_"+name, srt))
+			st.ghosts[name] = sv
+			return sv
+		}
 		// ghost output of a callee that was not called on this path: arbitrary
 		for cn, cfc := range ex.p.Contracts.Funcs {
 			for _, g := range cfc.Ghosts {
@@ -506,6 +511,10 @@ func (ex *Exec) specCall(st *State, v *ast.CallExpr, ctx *specCtx) SV {
 			ex.specFail("unknown sync.Once variable %s", id.Name)
 		}
 		return Scalar(Select(st.heap["Done"], IntLit(int64(ex.p.onceID(g)))))
+	case "bodyOf":
+		nargs(1)
+		ex.declareFun("f_extfield_Int", []string{SInt, SInt}, SInt)
+		return Scalar(App(SInt, "f_extfield_Int", ex.specTerm(st, arg(0), ctx), IntLit(6)))
 	case "fresh":
 		nargs(1)
 		x := ex.spec(st, arg(0), ctx)
